@@ -236,6 +236,36 @@ def rename_slides(data, mapping):
     return out.getvalue()
 
 
+def respell_targets(data):
+    """Independent zip rewriter: the same package with internal relationship Targets spelled the other ways OPC allows
+    and other producers use: root-absolute (/ppt/slides/slide1.xml) in the rels item of the presentation part,
+    a leading ./ in the rels items of slides, an up-and-down detour (../slides/../slideLayouts/x.xml) in those of notes slides."""
+    names, z = read_zip(data)
+    out = io.BytesIO()
+    zo = zipfile.ZipFile(out, "w", zipfile.ZIP_DEFLATED)
+    for n in names:
+        b = z[n]
+        m = re.match(r"^(.*)/_rels/([^/]+)\.rels$", n)
+        if m:
+            src = "/" + m.group(1) + "/" + m.group(2)
+            root = etree.fromstring(b)
+            for e in root:
+                if e.get("TargetMode") == "External":
+                    continue
+                t = resolve(src, e.get("Target"))
+                if src == "/ppt/presentation.xml":
+                    e.set("Target", t)
+                elif src.startswith("/ppt/slides/"):
+                    e.set("Target", "./" + e.get("Target"))
+                elif src.startswith("/ppt/notesSlides/"):
+                    d = posixpath.dirname(t)
+                    e.set("Target", posixpath.relpath(d, posixpath.dirname(src)) + "/../" + posixpath.basename(d) + "/" + posixpath.basename(t))
+            b = etree.tostring(root, xml_declaration=True, encoding="UTF-8", standalone=True)
+        zo.writestr(n, b)
+    zo.close()
+    return out.getvalue()
+
+
 def with_foreign_parts(data, png):
     """The deck plus what PowerPoint-authored files have and python-pptx never writes: parts of a class the library
     does not know (loaded as the generic Part) that have relationships of their own -- the theme with a picture fill
@@ -336,6 +366,7 @@ def decks():
     out["gaps_perm"] = rename_slides(rich, {1: 7, 2: 3, 3: 11, 4: 1})
     out["shift"] = rename_slides(rich, {1: 2, 2: 3, 3: 4, 4: 5})
     out["foreign"] = with_foreign_parts(rich, F.images[-1][0])
+    out["respelled"] = respell_targets(rich)
     # related but unlisted slide parts whose names lie above the listed count (below it the first access of prs.slides
     # renames a listed slide onto them: C06 / C13 unlisted-slide-partname-collision).  add_slide meets a taken
     # conventional name: slide4.xml on the first, slide4.xml then slide5.xml (search going down past slide6.xml) on the second
@@ -899,7 +930,14 @@ def content_view(prs, reopened):
         slides = list(prs.slides)
     else:
         lst = prs.part._element.sldIdLst
-        slides = [prs.part.related_part(e.get("{%s}id" % NS_R)).slide for e in (lst if lst is not None else [])]
+        slides = []
+        for e in (lst if lst is not None else []):
+            try:
+                slides.append(prs.part.related_part(e.get("{%s}id" % NS_R)).slide)
+            except KeyError:
+                # a listed slide whose relationship is not there (dropped at load?): shown as such, the closedness oracle
+                # reports the unresolved r:id on the saved package
+                out.append(["<p:sldId %s has no relationship>" % e.get("{%s}id" % NS_R)])
     for s in slides:
         shapes = []
         for sh in s.shapes:
@@ -1397,7 +1435,7 @@ def run(ck, tier, rng):
         # without the model the oracle still runs
         global model_views
         model_views = lambda deck_name, ops_list, mode="n": [None] * len(ops_list)  # noqa
-    djobs = [(d, name, ops) for d in ("default", "rich", "swap", "gaps", "foreign") for name, ops in directed_histories()]
+    djobs = [(d, name, ops) for d in ("default", "rich", "swap", "gaps", "foreign", "respelled") for name, ops in directed_histories()]
     djobs += [(d, name, ops) for d in OUTSIDE_INV + ("rich", "gaps") for name, ops in directed_add_slide()]
     with multiprocessing.Pool(procs) as pool:
         results = pool.map(directed_worker, djobs, chunksize=2)
@@ -1453,7 +1491,7 @@ def run(ck, tier, rng):
                      concrete=False)
     ck.broken_build(oracle_found_concrete=len(ck.violations) > 0)
     return ck.finish(
-        rule="%d directed histories (relationships with two and three users: run links, shape links, jumps, same URL on two slides, two pictures of one image, notes-slide jumps; each set / one cleared / changed / set back / cleared in turn with a save after every stage, on 4 decks, as given and with a save at every prefix) + %d random histories of 1..%d public-API operations (21 operation kinds incl. refused calls and read accesses) over the default template, a deck with pictures/chart/notes/hyperlink, five copies of it with slide members renamed out of order / with gaps, one with parts of unknown classes and two with related but unlisted slide parts whose names add_slide meets (outside Inv: correspondence, oracle and the theorems without hypothesis on the state; %d directed add_slide histories on them); each history runs as generated + final save and with a save at every prefix (for irregular decks half of those after a first prs.slides access); non-trivial = at least two graph-changing operations succeeded and a save followed" % (len(djobs) * 2, nh, maxlen, 2 * len(directed_add_slide()) * len(OUTSIDE_INV)),
+        rule="%d directed histories (relationships with two and three users: run links, shape links, jumps, same URL on two slides, two pictures of one image, notes-slide jumps; each set / one cleared / changed / set back / cleared in turn with a save after every stage, on 4 decks, as given and with a save at every prefix) + %d random histories of 1..%d public-API operations (21 operation kinds incl. refused calls and read accesses) over the default template, a deck with pictures/chart/notes/hyperlink, five copies of it with slide members renamed out of order / with gaps, one with parts of unknown classes, one with relationship targets spelled root-absolute / with ./ and ../ detours, and two with related but unlisted slide parts whose names add_slide meets (outside Inv: correspondence, oracle and the theorems without hypothesis on the state; %d directed add_slide histories on them); each history runs as generated + final save and with a save at every prefix (for irregular decks half of those after a first prs.slides access); non-trivial = at least two graph-changing operations succeeded and a save followed" % (len(djobs) * 2, nh, maxlen, 2 * len(directed_add_slide()) * len(OUTSIDE_INV)),
         trusted_base=TB, assumptions=ASSUME,
         extra={"correspondence_diffs": len(diffs), "saves_checked_by_oracle": nsaves, "constants_ok": consts_ok,
                "directed_histories": len(djobs) * 2,
